@@ -19,7 +19,7 @@ EXPLANATION = (
     "format chosen per width by partial evaluation of the constructor's threshold chain, size = width//8, the "
     "truncating slice in pack dominated by a raising range guard whose bounds fold to the type's exact range for "
     "every width, unpack pads by exactly (wide size - size) bytes with 0xFF iff the sign bit of the top byte is set; "
-    "R4 struct errors in encode_raw/decode_raw are never swallowed; R5 __len__ = codec size * 8; R6 text codecs."
+    "R4 struct errors in encode_raw/decode_raw are never swallowed; R5 __len__ = codec size * 8; R6 text codecs. R8 no class-level mutable object is mutated in place by instances (each node/client/map/dictionary has its own state)."
 )
 ASSUMPTIONS = [
     "CPython struct semantics for standard formats (range checking, exact-size unpack) are the trusted base",
@@ -208,6 +208,10 @@ def run(chk):
         else:
             chk.check(str(got["encode_raw"]).lower().replace("-", "_") == str(got["decode_raw"]).lower().replace("-", "_"),
                       "R6", f"{OD}:ODVariable | type 0x{tcode:X} agreement", OD, f"encode uses {got['encode_raw']!r}, decode {got['decode_raw']!r}")
+
+    # ------------------------------------------------------------------ R8 instances are independent (shared clause)
+    from . import shared as _shared
+    _shared.isolation(chk, "R8", rels=['canopen/objectdictionary/__init__.py', 'canopen/objectdictionary/datatypes.py'])
 
 
 def _packer(chk, repo, folder: Folder, cls, signed: bool):
